@@ -257,7 +257,7 @@ def gen(rng, tier):
         cases.append(gen_flood(rng, 700, 7, True, 300))
     else:
         for j in range(8):
-            cases.append(gen_flood(rng, rng.choice([530, 700, 1200, 5000]), rng.choice([1, 4, 8, 9]), j % 2 == 1, 1500))
+            cases.append(gen_flood(rng, rng.choice([600, 800, 1200, 2500]), rng.choice([2, 4, 8, 9]), j % 2 == 1, 1500))
     return cases
 
 
